@@ -182,16 +182,18 @@ package chain
 // valid signature of its source account
 //@   at-call GetTransfers assert[sender-debits-bounded-when-applied] senderDebit(sctx, len(sctx.transfers)) <= txn.Value + txn.Fee
 // Stated as a step count: StateContext.Validate (whose own contract - chain/state - says that it returns
-// nil only if every signed transfer is correctly signed) has been called (once more on the smart-contract
-// path, right after the call) and has succeeded - the paths on which it fails return - since the function
-// was entered, before the queued transfers and before the signed transfers are
+// nil only if every signed transfer is correctly signed) has been called twice and has succeeded both times
+// (the paths on which it fails return): once on entry, before anything is executed, and once more after the
+// transaction queued its transfers - that second call is the one that matters - before the queued transfers
+// and before the signed transfers are
 // read back to be applied; nothing but AddSignedTransfer stores to the list in between (writer scan,
 // chain/state). The quantified fact itself was re-proved here at first: inside this large function that
 // took 13-37 s and timed out on a loaded machine - a false alarm in a check run - so it is composed instead.
 //   $validateCalls   specification-only counter of the calls of StateContext.Validate
 //@   at-call Validate ghost $validateCalls += 1
-//@   at-call GetTransfers assert[validated-before-anything-is-applied] $validateCalls >= old($validateCalls) + 1
-//@   at-call GetSignedTransfers assert[signed-transfers-validated-when-applied] $validateCalls >= old($validateCalls) + 1
+//@   at-call ExecuteSmartContract assert[second-validation-comes-after-the-call] $validateCalls == old($validateCalls) + 1
+//@   at-call GetTransfers assert[validated-before-anything-is-applied] $validateCalls == old($validateCalls) + 2
+//@   at-call GetSignedTransfers assert[signed-transfers-validated-when-applied] $validateCalls == old($validateCalls) + 2
 //@   loop 1 header "for _, transfer := range sctx.GetTransfers()"
 //@   loop 1 invariant forall k string :: $nonce[k] == old($blockNonce[k]) && $blockNonce[k] == old($blockNonce[k]) && $blockBal[k] == old($blockBal[k])
 // (C04) applying the queued transfers lowers the sender's balance by at most the validated total
